@@ -108,6 +108,10 @@ impl<T: Types> FlushWorker<T> {
     }
 
     fn run_inner(mut self) -> Result<(), io::Error> {
+        // Set when the most recent sync failed: the purge record that makes
+        // chunks obsolete may then not be durable, so they must not be removed.
+        let mut last_sync_failed = false;
+
         loop {
             let req = self.rx.recv();
             let Ok(SeqRequest { seq, req }) = req else {
@@ -116,7 +120,10 @@ impl<T: Types> FlushWorker<T> {
             };
 
             let WorkerRequest::Write(w) = req else {
-                self.handle_non_flush_request(req)?;
+                self.handle_non_flush_request_after_sync(
+                    req,
+                    last_sync_failed,
+                )?;
                 self.done_seq.store(seq, Ordering::Relaxed);
                 continue;
             };
@@ -169,6 +176,10 @@ impl<T: Types> FlushWorker<T> {
                     Ok(())
                 };
 
+                if need_sync {
+                    last_sync_failed = sync_result.is_err();
+                }
+
                 for w in batch {
                     if let Some(cb) = w.callback {
                         match &sync_result {
@@ -190,12 +201,35 @@ impl<T: Types> FlushWorker<T> {
                 req: last,
             }) = last_non_flush
             {
-                self.handle_non_flush_request(last)?;
+                self.handle_non_flush_request_after_sync(
+                    last,
+                    last_sync_failed,
+                )?;
                 max_seq = max_seq.max(nf_seq);
             }
 
             self.done_seq.store(max_seq, Ordering::Relaxed);
         }
+    }
+
+    /// Handle a non-flush request, but keep the chunk files of a
+    /// `RemoveChunks` request if the preceding sync failed: they are only
+    /// obsolete once the purge record is durably recorded.
+    fn handle_non_flush_request_after_sync(
+        &mut self,
+        req: WorkerRequest<T>,
+        last_sync_failed: bool,
+    ) -> Result<(), io::Error> {
+        if last_sync_failed {
+            if let WorkerRequest::RemoveChunks { chunk_paths } = &req {
+                log::error!(
+                    "FlushWorker: skip RemoveChunks {:?}: the preceding sync failed",
+                    chunk_paths
+                );
+                return Ok(());
+            }
+        }
+        self.handle_non_flush_request(req)
     }
 
     fn handle_non_flush_request(
